@@ -17,6 +17,9 @@ FWS = ["base", "pydantic", "sqlmodel", "attrs", "dataclasses"]
 def _cases(tier):
     specs = list(A.graph_specs(3))
     specs += [g for g in A.graph_specs(4, payloads=("P1", "P3", "P4"), wrappers=("plain", "list")) if A.graph_size(g) == 4]
+    # trees whose leaves need their own imports / carry a string with U+2028: what nesting and indentation can lose or alter
+    typed = [g for g in A.graph_specs(4, payloads=("P1", "P3l", "P4d", "P3u"), wrappers=("plain",)) if A.graph_size(g) in (3, 4)]
+    specs += typed if tier != "quick" else [g for g in typed if A.graph_size(g) == 3 or g[0] == "P1"]
     if tier != "quick":
         specs += [g for g in A.graph_specs(4, payloads=("P1", "P2", "P3", "P4"), wrappers=("plain", "list", "nullable", "dict"))
                   if A.graph_size(g) == 4 and g not in specs]
